@@ -92,3 +92,229 @@ Lemma policy_depth_example :
   = Ok (VSub [("a", ("a", VSub [("paths", ("paths", l 2))] None));
               ("paths", ("paths", VSub [] (Some [("0", VUint 1); ("1", VUint 2)])))] None).
 Proof. vm_compute. reflexivity. Qed.
+
+(** * A relational extensionality principle for the merge: two override functions that keep
+    the handling in step give the same merge *)
+Section Rel.
+  Variable R : mopts -> mopts -> Prop.
+  Variables ov1 ov2 : mopts -> string -> Z -> res mopts.
+  Hypothesis R_h : forall o1 o2, R o1 o2 -> m_h o1 = m_h o2.
+  Hypothesis R_step : forall o1 o2 k i, R o1 o2 ->
+    exists o1' o2', ov1 o1 k i = Ok o1' /\ ov2 o2 k i = Ok o2' /\ R o1' o2'.
+
+  Lemma md_loop_rel rec1 rec2 o1 o2 l :
+    R o1 o2 ->
+    Forall (fun e => forall p1 p2 old, R p1 p2 -> rec1 p1 old (snd (snd e)) = rec2 p2 old (snd (snd e))) l ->
+    forall acc, md_loop ov1 rec1 o1 acc l = md_loop ov2 rec2 o2 acc l.
+  Proof.
+    intros HR F. induction F as [|[k [nm x]] r Hx Fr IH]; intro acc; simpl; [reflexivity|].
+    destruct (R_step o1 o2 k (-1) HR) as [p1 [p2 [E1 [E2 HR']]]]. rewrite E1, E2. simpl.
+    simpl in Hx. rewrite (Hx p1 p2 _ HR'). destruct (rec2 p2 _ x); simpl; auto.
+  Qed.
+
+  Lemma ma_loop_rel rec1 rec2 o1 o2 news :
+    R o1 o2 ->
+    Forall (fun e => forall p1 p2 old, R p1 p2 -> rec1 p1 old (snd e) = rec2 p2 old (snd e)) news ->
+    forall i olds, ma_loop ov1 rec1 o1 i olds news = ma_loop ov2 rec2 o2 i olds news.
+  Proof.
+    intros HR F. induction F as [|[nm x] r Hx Fr IH]; intros i olds; simpl; [reflexivity|].
+    destruct olds as [|[nm2 y] orest]; [reflexivity|].
+    destruct (R_step o1 o2 "" i HR) as [p1 [p2 [E1 [E2 HR']]]]. rewrite E1, E2. simpl.
+    simpl in Hx. rewrite (Hx p1 p2 _ HR'). destruct (rec2 p2 (Some y) x); simpl; auto. rewrite IH. reflexivity.
+  Qed.
+
+  Theorem merge_val_rel : forall v o1 o2 old,
+    R o1 o2 -> merge_val ov1 o1 old v = merge_val ov2 o2 old v.
+  Proof.
+    induction v as [| | | | | | | |d a H H0] using value_ind'; intros o1 o2 old HR; try reflexivity.
+    { destruct old as [ov|]; [|reflexivity]. cbn [merge_val].
+      destruct (to_cfg ov); try reflexivity.
+      destruct (R_step o1 o2 "*" (-1) HR) as [p1 [p2 [E1 [E2 _]]]]. rewrite E1, E2. reflexivity. }
+    destruct old as [ov|]; [|reflexivity].
+    cbn [merge_val]. destruct (to_cfg ov) as [d0 a0| |]; try reflexivity.
+    rewrite (R_h o1 o2 HR).
+    assert (match d with
+            | [] => Ok d0
+            | _ :: _ => md_loop ov1 (merge_val ov1) o1 (if (m_h o2 =? hReplace)%N then [] else d0) d
+            end =
+            match d with
+            | [] => Ok d0
+            | _ :: _ => md_loop ov2 (merge_val ov2) o2 (if (m_h o2 =? hReplace)%N then [] else d0) d
+            end) as ED.
+    { destruct d as [|e r]; [reflexivity|]. apply md_loop_rel; [exact HR|exact H]. }
+    rewrite ED. clear ED.
+    match goal with |- bind ?X _ = _ => destruct X as [dres| | |] end; simpl; try reflexivity.
+    destruct (R_step o1 o2 "*" (-1) HR) as [p1 [p2 [E1 [E2 HR']]]]. rewrite E1, E2. simpl.
+    assert (merge_arr ov1 (merge_val ov1) (m_h o2) p1 a0 a = merge_arr ov2 (merge_val ov2) (m_h o2) p2 a0 a) as EA.
+    { unfold merge_arr. destruct a as [l2|]; [|reflexivity]. destruct l2 as [|e2 r2]; [reflexivity|].
+      destruct ((m_h o2 =? hReplace)%N || (m_h o2 =? hArrReplace)%N); [reflexivity|].
+      destruct (m_h o2 =? hPrepend)%N; [reflexivity|]. destruct (m_h o2 =? hAppend)%N; [reflexivity|].
+      rewrite (ma_loop_rel (merge_val ov1) (merge_val ov2) p1 p2 (e2 :: r2)); [reflexivity|exact HR'|exact H0]. }
+    rewrite EA. reflexivity.
+  Qed.
+End Rel.
+
+(** * the tree of a one-name policy: below the named field nothing of it selects anything *)
+Lemma get_field_on_uint f pp u :
+  get_field f pp (VUint u) = Err EExpectedObject "" \/ get_field f pp (VUint u) = Ok (Some (pp, VUint u)).
+Proof.
+  destruct f as [n|i]; cbn; [left; reflexivity|]. destruct (i =? 0); [right|left]; reflexivity.
+Qed.
+
+Lemma ft_child_leaf_fails h k idx : exists r p, ft_child (policy_leaf h) k idx = Err r p.
+Proof.
+  unfold ft_child, get_value, get_path, opts_path_idx, parse_path_idx, default_popts. cbn [p_sep p_maxIdx p_numKeys p_escape].
+  unfold parse_path. cbn [String.eqb orb].
+  destruct (String.eqb k "") eqn:Ek.
+  - (* the name is empty: the index alone *)
+    cbn [get_path_go get_field policy_leaf to_cfg arr_of lenZ List.length].
+    match goal with |- context [if ?c then _ else _] => destruct c eqn:B end; [cbn; eauto|].
+    exfalso. unfold lenZ in B. simpl in B. lia.
+  - set (f := parse_field k defaultMaxIdx false).
+    assert (forall pp, get_field f pp (policy_leaf h) = Ok None \/
+                       (exists r p, get_field f pp (policy_leaf h) = Err r p) \/
+                       get_field f pp (policy_leaf h) = Ok (Some (path_join pp "*", VUint (Z.of_N h)))) as G.
+    { intro pp. destruct f as [n|i]; cbn.
+      - destruct (String.eqb n "*"); [right; right; reflexivity|left; reflexivity].
+      - right. left. match goal with |- context [if ?c then _ else _] => destruct c eqn:B end; [eauto|].
+        exfalso. unfold lenZ in B. simpl in B. lia. }
+    destruct (0 <=? idx) eqn:Ei.
+    + cbn [app]. rewrite ProofsTree.get_path_go_unfold.
+      destruct (G "") as [E|[[r [p E]]|E]]; rewrite E; cbn; eauto.
+      destruct (idx =? 0); cbn; eauto.
+    + cbn [get_path_go]. destruct (G "") as [E|[[r [p E]]|E]]; rewrite E; cbn; eauto.
+Qed.
+
+Lemma soft_err {A} (x : res A) : (exists r p, x = Err r p) -> soft x = Ok None.
+Proof. intros [r [p E]]. subst. reflexivity. Qed.
+
+Lemma field_handling_leaf h k idx fuel :
+  field_handling (S fuel) (policy_leaf h) k idx = Ok (hDefault, None, false).
+Proof.
+  cbn [field_handling]. rewrite (soft_err _ (ft_child_leaf_fails h k idx)). cbn [bind].
+  rewrite (soft_err _ (ft_child_leaf_fails h "**" (-1))). reflexivity.
+Qed.
+
+Lemma override_below_named_field h' k idx :
+  field_opts_override {| m_h := h'; m_ft := Some (policy_leaf (h')) |} k idx
+  = if (idx <? 0) && negb (String.eqb k "*")
+    then Ok {| m_h := h'; m_ft := None |}
+    else Ok {| m_h := h'; m_ft := Some (policy_leaf h') |}.
+Proof.
+  unfold field_opts_override. cbn [m_ft m_h].
+  destruct (vsize (policy_leaf h')) as [|fu] eqn:V; [cbn in V; discriminate|]. rewrite field_handling_leaf. cbn [bind].
+  unfold include_wildcard. rewrite (soft_err _ (ft_child_leaf_fails h' "**" (-1))). cbn [bind].
+  destruct ((idx <? 0) && negb (String.eqb k "*")); reflexivity.
+Qed.
+
+(* everything at and below the named field is merged as if the named policy were the global one *)
+Theorem named_policy_is_global_below h' : forall v old,
+  merge_full {| m_h := h'; m_ft := Some (policy_leaf h') |} old v = merge_plain (plain_opts h') old v.
+Proof.
+  intros v old. unfold merge_full, merge_plain.
+  apply (merge_val_rel
+           (fun o1 o2 => o2 = plain_opts h' /\ m_h o1 = h' /\ (m_ft o1 = None \/ m_ft o1 = Some (policy_leaf h')))).
+  - intros o1 o2 [E2 [E1 _]]. subst o2. rewrite E1. reflexivity.
+  - intros o1 o2 k i [E2 [E1 Eft]]. subst o2. destruct o1 as [h1 ft1]. simpl in E1, Eft. subst h1.
+    destruct Eft as [Eft|Eft]; subst ft1.
+    + exists {| m_h := h'; m_ft := None |}, (plain_opts h'). repeat split; auto.
+    + rewrite override_below_named_field.
+      destruct ((i <? 0) && negb (String.eqb k "*")); eexists _, (plain_opts h'); repeat split; auto.
+  - repeat split; auto.
+Qed.
+
+(** * at the top level of a one-name policy *)
+Definition name_ok (k : string) : Prop :=
+  parse_field k defaultMaxIdx false = FName k /\ k <> "" /\ k <> "*" /\ k <> "**".
+
+Lemma neq_eqb a b : a <> b -> String.eqb a b = false.
+Proof. intro H. destruct (String.eqb a b) eqn:E; [apply String.eqb_eq in E; contradiction|reflexivity]. Qed.
+
+Lemma ft_child_named name h : name_ok name ->
+  ft_child (policy_tree name h) name (-1) = Ok (policy_leaf h).
+Proof.
+  intros [Hp [Hne _]].
+  unfold ft_child, get_value, get_path, opts_path_idx, parse_path_idx, default_popts. cbn [p_sep p_maxIdx p_numKeys p_escape].
+  rewrite (neq_eqb _ _ Hne). unfold parse_path. cbn [String.eqb orb]. rewrite Hp. cbn [Z.leb Z.compare].
+  cbn [get_path_go get_field policy_tree to_cfg dict_get]. rewrite String.eqb_refl. reflexivity.
+Qed.
+
+Lemma ft_child_other name h k : name_ok k -> k <> name ->
+  exists r p, ft_child (policy_tree name h) k (-1) = Err r p.
+Proof.
+  intros [Hp [Hne _]] Hk.
+  unfold ft_child, get_value, get_path, opts_path_idx, parse_path_idx, default_popts. cbn [p_sep p_maxIdx p_numKeys p_escape].
+  rewrite (neq_eqb _ _ Hne). unfold parse_path. cbn [String.eqb orb]. rewrite Hp. cbn [Z.leb Z.compare].
+  cbn [get_path_go get_field policy_tree to_cfg dict_get]. rewrite (neq_eqb _ _ Hk). cbn. eauto.
+Qed.
+
+Lemma ft_child_wild name h : name <> "**" ->
+  exists r p, ft_child (policy_tree name h) "**" (-1) = Err r p.
+Proof.
+  intro Hk.
+  unfold ft_child, get_value, get_path, opts_path_idx, parse_path_idx, default_popts. cbn [p_sep p_maxIdx p_numKeys p_escape].
+  unfold parse_path. cbn [String.eqb Ascii.eqb Bool.eqb orb andb].
+  change (parse_field "**" defaultMaxIdx false) with (FName "**"). cbn [Z.leb Z.compare].
+  cbn [get_path_go get_field policy_tree to_cfg dict_get].
+  assert (String.eqb "**" name = false) as E by (apply neq_eqb; intro X; apply Hk; symmetry; exact X).
+  rewrite E. cbn. eauto.
+Qed.
+
+Lemma ft_handling_leaf h : (h < 256)%N -> ft_handling (policy_leaf h) = Ok h.
+Proof.
+  intro Hh. unfold ft_handling, get_value, get_path, opts_path_idx, parse_path_idx, default_popts.
+  cbn [p_sep p_maxIdx p_numKeys p_escape]. unfold parse_path. cbn [String.eqb Ascii.eqb Bool.eqb orb andb].
+  change (parse_field "*" defaultMaxIdx false) with (FName "*"). cbn [Z.leb Z.compare].
+  cbn [get_path_go get_field policy_leaf to_cfg dict_get String.eqb Ascii.eqb Bool.eqb andb bind snd].
+  rewrite N2Z.id. rewrite N.mod_small by exact Hh. reflexivity.
+Qed.
+
+Theorem override_at_named_field h name h' : name_ok name -> (h' < 256)%N ->
+  field_opts_override {| m_h := h; m_ft := Some (policy_tree name h') |} name (-1)
+  = Ok {| m_h := h'; m_ft := Some (policy_leaf h') |}.
+Proof.
+  intros Hn Hh. unfold field_opts_override. cbn [m_ft m_h].
+  destruct (vsize (policy_tree name h')) as [|fu] eqn:V; [cbn in V; discriminate|].
+  cbn [field_handling]. rewrite (ft_child_named name h' Hn). cbn [soft bind].
+  rewrite (ft_handling_leaf h' Hh). cbn [soft bind].
+  unfold include_wildcard. destruct Hn as [_ [_ [_ Hw]]].
+  rewrite (soft_err _ (ft_child_wild name h' Hw)). reflexivity.
+Qed.
+
+Theorem override_at_other_field h name h' k : name_ok k -> k <> name -> name <> "**" ->
+  field_opts_override {| m_h := h; m_ft := Some (policy_tree name h') |} k (-1)
+  = Ok {| m_h := h; m_ft := None |}.
+Proof.
+  intros Hk Hne Hw. unfold field_opts_override. cbn [m_ft m_h].
+  destruct (vsize (policy_tree name h')) as [|fu] eqn:V; [cbn in V; discriminate|].
+  cbn [field_handling]. rewrite (soft_err _ (ft_child_other name h' k Hk Hne)). cbn [bind].
+  rewrite (soft_err _ (ft_child_wild name h' Hw)). cbn [bind].
+  unfold include_wildcard. rewrite (soft_err _ (ft_child_wild name h' Hw)). cbn [bind].
+  destruct Hk as [_ [_ [Hs _]]]. rewrite (neq_eqb _ _ Hs). reflexivity.
+Qed.
+
+(* C16 for a policy on one top-level name, all trees: the named entry is merged as if the named
+   policy were the global one, every other named entry as under the global policy *)
+Theorem single_name_policy h name h' : name_ok name -> (h' < 256)%N ->
+  (forall old v, o' <- field_opts_override {| m_h := h; m_ft := Some (policy_tree name h') |} name (-1) ;;
+                 merge_full o' old v
+                 = merge_plain (plain_opts h') old v) /\
+  (forall k old v, name_ok k -> k <> name ->
+                   o' <- field_opts_override {| m_h := h; m_ft := Some (policy_tree name h') |} k (-1) ;;
+                   merge_full o' old v
+                   = merge_plain {| m_h := h; m_ft := None |} old v).
+Proof.
+  intros Hn Hh. split.
+  - intros old v. rewrite (override_at_named_field h name h' Hn Hh). cbn [bind].
+    apply named_policy_is_global_below.
+  - intros k old v Hk Hne. destruct Hn as [_ [_ [_ Hw]]].
+    rewrite (override_at_other_field h name h' k Hk Hne Hw). cbn [bind].
+    apply merge_full_no_tree. reflexivity.
+Qed.
+
+Example name_ok_examples : name_ok "paths" /\ name_ok "a-b_c" /\ ~ name_ok "3" /\ ~ name_ok "*".
+Proof.
+  repeat split; try discriminate; try reflexivity.
+  - intros [H _]. vm_compute in H. discriminate.
+  - intros [_ [_ [H _]]]. apply H. reflexivity.
+Qed.
